@@ -707,12 +707,14 @@ func (w *world) verifyAll(oracle, where string) {
 
 // checkClean runs the real `check --read-data` in a fresh process (pass-through
 // scheduling) and fails the run if it reports an error.
-func (w *world) checkClean(oracle, where string) {
+func (w *world) checkClean(oracle, where string) { w.checkCleanOn("main", oracle, where) }
+
+func (w *world) checkCleanOn(repo, oracle, where string) {
 	if w.r.Failed() {
 		return
 	}
 	w.free(func() {
-		pr := w.newProc("check")
+		pr := w.newProcOn("check", repo)
 		sum, err, errOut := w.cmdCheck(pr, true)
 		if err != nil || sum.NumErrors > 0 {
 			w.r.Fail(oracle, "check-errors", "%s: check --read-data reports errors: %v (NumErrors=%d)\n%s", where, err, sum.NumErrors, firstLines(errOut, 12))
